@@ -67,6 +67,70 @@ def _pure_temp_value(e) -> bool:
     return True
 
 
+def _read_comes_first(stmt, name: str) -> bool:
+    """In `stmt` (a simple statement, or the header of an if / for) the single read of `name` is evaluated
+    unconditionally and before any call is made: an expression WITH effects can be moved from the statement before
+    into the place of that read without changing the order of effects."""
+    def kids(n):
+        if isinstance(n, ast.Call):
+            return [n.func] + list(n.args) + [k.value for k in n.keywords]
+        if isinstance(n, ast.BinOp):
+            return [n.left, n.right]
+        if isinstance(n, ast.Compare) and len(n.ops) == 1:
+            return [n.left] + list(n.comparators)
+        if isinstance(n, (ast.Tuple, ast.List, ast.Set)):
+            return list(n.elts)
+        if isinstance(n, ast.Dict) and all(k is not None for k in n.keys):
+            return [x for kv in zip(n.keys, n.values) for x in kv]
+        if isinstance(n, ast.Subscript):
+            return [n.value, n.slice]
+        if isinstance(n, (ast.Attribute, ast.Starred)):
+            return [n.value]
+        if isinstance(n, ast.UnaryOp):
+            return [n.operand]
+        if isinstance(n, ast.JoinedStr):
+            return list(n.values)
+        if isinstance(n, ast.FormattedValue):
+            return [n.value] + ([n.format_spec] if n.format_spec is not None else [])
+        if isinstance(n, ast.Slice):
+            return [x for x in (n.lower, n.upper, n.step) if x is not None]
+        return None
+
+    def scan(n) -> str:
+        if isinstance(n, ast.Name):
+            return "found" if n.id == name and isinstance(n.ctx, ast.Load) else "clean"
+        if isinstance(n, ast.Constant):
+            return "clean"
+        ks = kids(n)
+        if isinstance(n, (ast.ListComp, ast.SetComp, ast.GeneratorExp, ast.DictComp)) and not isinstance(n, ast.GeneratorExp):
+            # the first iterable of a comprehension is evaluated first, once
+            r = scan(n.generators[0].iter)
+            if r == "found":
+                return r
+        if ks is None:
+            inside = list(ast.walk(n))
+            if any(isinstance(x, ast.Name) and x.id == name for x in inside) or any(isinstance(x, (ast.Call, ast.Await, ast.Yield, ast.YieldFrom)) for x in inside):
+                return "dirty"
+            return "clean"
+        for k in ks:
+            r = scan(k)
+            if r != "clean":
+                return r
+        return "dirty" if isinstance(n, ast.Call) else "clean"
+
+    if isinstance(stmt, (ast.Return, ast.Expr)):
+        e = stmt.value
+    elif isinstance(stmt, ast.Assign):
+        e = stmt.value
+    elif isinstance(stmt, ast.AugAssign) and isinstance(stmt.target, ast.Name):
+        e = stmt.value
+    elif isinstance(stmt, ast.expr):
+        e = stmt
+    else:
+        return False
+    return e is not None and scan(e) == "found"
+
+
 def temp_pass(fn: ast.FunctionDef, qual: str, known_locals: Dict[str, set], log: List[str], mod: str) -> bool:
     """T: a NEW local (not bound in this function on the pinned tree) that holds a pure expression and is read only by
     the statement immediately following its definition (for `if` / `for`: only by the test / the iterable) is
@@ -127,7 +191,11 @@ def temp_pass(fn: ast.FunctionDef, qual: str, known_locals: Dict[str, set], log:
                         (isinstance(nxt, (ast.Assign, ast.AnnAssign)) and isinstance(nxt.value, ast.Name) and nxt.value.id == t.id
                          and all(isinstance(x, ast.Name) for x in (nxt.targets if isinstance(nxt, ast.Assign) else [nxt.target])))
                     if not passes_on or j != i + 1:
-                        continue
+                        # ... or when the read is the first thing the next statement evaluates
+                        hdr = nxt.test if isinstance(nxt, ast.If) else (nxt.iter if isinstance(nxt, ast.For) else nxt)
+                        n_reads = sum(1 for x in ast.walk(fn) if isinstance(x, ast.Name) and x.id == t.id and isinstance(x.ctx, ast.Load))
+                        if j != i + 1 or n_reads != 1 or not _read_comes_first(hdr, t.id):
+                            continue
                 if isinstance(nxt, (ast.Assign, ast.AnnAssign, ast.AugAssign, ast.Expr, ast.Return)):
                     header = [nxt]
                 elif isinstance(nxt, ast.If):
@@ -143,8 +211,10 @@ def temp_pass(fn: ast.FunctionDef, qual: str, known_locals: Dict[str, set], log:
                 if not all_uses or len(all_uses) != len(hdr_uses):
                     continue
                 # not inside a lambda / comprehension of the header (evaluated later / repeatedly)
+                first_iter = {id(n) for h in header for x in ast.walk(h) if isinstance(x, (ast.ListComp, ast.SetComp, ast.DictComp))
+                              for n in ast.walk(x.generators[0].iter)}        # evaluated at once, once
                 deferred = [n for h in header for x in ast.walk(h) if isinstance(x, (ast.Lambda, ast.ListComp, ast.SetComp, ast.DictComp, ast.GeneratorExp))
-                            for n in ast.walk(x) if isinstance(n, ast.Name) and n.id == t.id]
+                            for n in ast.walk(x) if isinstance(n, ast.Name) and n.id == t.id and id(n) not in first_iter]
                 if deferred and any(isinstance(x, ast.Call) for x in ast.walk(st.value)):
                     continue
                 sub = _Subst({t.id: st.value}, {})
@@ -164,6 +234,266 @@ def temp_pass(fn: ast.FunctionDef, qual: str, known_locals: Dict[str, set], log:
         if not changed:
             break
     return changed_any
+
+
+def _stable_value(e, ok_name) -> bool:
+    """an expression over local NAMES only (no attribute reads, no calls but pure builtins, no fresh mutable
+    containers): its value cannot change as long as the names it reads are not rebound.  Subscripts and builtin calls
+    are allowed on names `ok_name` additionally certifies as never mutated in the function."""
+    if isinstance(e, ast.Constant):
+        return True
+    if isinstance(e, ast.Name):
+        return isinstance(e.ctx, ast.Load) and ok_name(e.id, False)
+    if isinstance(e, ast.Tuple):
+        return all(_stable_value(x, ok_name) for x in e.elts)
+    if isinstance(e, ast.UnaryOp):
+        return _stable_value(e.operand, ok_name)
+    if isinstance(e, ast.BinOp):
+        return _stable_value(e.left, ok_name) and _stable_value(e.right, ok_name)
+    if isinstance(e, ast.BoolOp):
+        return all(_stable_value(x, ok_name) for x in e.values)
+    if isinstance(e, ast.Compare):
+        return _stable_value(e.left, ok_name) and all(_stable_value(x, ok_name) for x in e.comparators)
+    if isinstance(e, ast.IfExp):
+        return all(_stable_value(x, ok_name) for x in (e.test, e.body, e.orelse))
+    if isinstance(e, ast.Attribute):
+        p = _path_of(e)
+        return p is not None and not any(isinstance(x, ast.Subscript) for x in ast.walk(e)) and ok_name(p, True)
+    if isinstance(e, ast.Subscript):
+        if isinstance(e.value, ast.Name):
+            return ok_name(e.value.id, True) and _stable_value(e.slice, ok_name)
+        return isinstance(e.value, (ast.Subscript, ast.Attribute)) and _stable_value(e.value, ok_name) and _stable_value(e.slice, ok_name)
+    if isinstance(e, ast.Call):
+        return isinstance(e.func, ast.Name) and e.func.id in PURE_BUILTINS and not e.keywords \
+            and all(isinstance(a, ast.Name) and ok_name(a.id, True) or (not isinstance(a, ast.Name) and _stable_value(a, ok_name)) for a in e.args)
+    return False
+
+
+def _blocks_of(fn):
+    blocks = [fn.body]
+    for n in _walk_own(fn):
+        for f in ("body", "orelse", "finalbody"):
+            b = getattr(n, f, None)
+            if isinstance(b, list) and b and isinstance(b[0], ast.stmt) and not isinstance(n, (ast.FunctionDef, ast.AsyncFunctionDef, ast.ClassDef)):
+                blocks.append(b)
+        if isinstance(n, ast.ExceptHandler):
+            blocks.append(n.body)
+    return blocks
+
+
+def _path_of(r) -> Optional[tuple]:
+    """('self', '_x') for self._x, self._x[i], *self._x ...; None when the root is not a name"""
+    parts = []
+    while isinstance(r, (ast.Attribute, ast.Subscript, ast.Starred)):
+        if isinstance(r, ast.Attribute):
+            parts.append(r.attr)
+        elif isinstance(r, ast.Subscript):
+            parts.clear()          # an element: what is mutated / read is the container the path so far leads to
+        r = r.value
+    if not isinstance(r, ast.Name):
+        return None
+    return (r.id,) + tuple(reversed(parts))
+
+
+def _root_name(r):
+    while isinstance(r, (ast.Attribute, ast.Subscript, ast.Starred)):
+        r = r.value
+    return r.id if isinstance(r, ast.Name) else None
+
+
+def stable_temp_pass(fn: ast.FunctionDef, qual: str, known_locals: Dict[str, set], log: List[str], mod: str) -> bool:
+    """T2: a NEW local bound by plain assignments `t = V`, V an expression over names (see _stable_value).  Between such
+    a definition and a read in the REST of the definition's block only statements of that rest are executed, so when
+    none of them rebinds a name V reads (nor mutates, syntactically anywhere in the function, a name V subscripts or
+    measures), the read sees V's value: every read is replaced by V and the definition dropped.  Several definitions
+    of one name are fine when none lies in the rest of another and every read lies in the rest of one.
+    P: the same for a new tuple unpacking `a, b = (x, y)` (a -> x, b -> y) and `a, b = e` (a -> e[0], b -> e[1])."""
+    known = known_locals.get(qual)
+    if known is None and known_locals:
+        known = set()
+    if known is None:
+        return False
+    changed_any = False
+    params = {a.arg for a in fn.args.posonlyargs + fn.args.args + fn.args.kwonlyargs}
+    if fn.args.vararg:
+        params.add(fn.args.vararg.arg)
+    if fn.args.kwarg:
+        params.add(fn.args.kwarg.arg)
+    for _ in range(60):
+        changed = False
+        binds: Dict[str, List[ast.Name]] = {}
+        mutated: set = set()
+        for n in _walk_own(fn):
+            if isinstance(n, ast.Name) and isinstance(n.ctx, (ast.Store, ast.Del)):
+                binds.setdefault(n.id, []).append(n)
+        for n in ast.walk(fn):
+            if isinstance(n, ast.Call) and isinstance(n.func, ast.Attribute):
+                mutated.add(_root_name(n.func.value))
+            elif isinstance(n, (ast.Subscript, ast.Attribute)) and isinstance(n.ctx, (ast.Store, ast.Del)):
+                mutated.add(_root_name(n.value))
+            elif isinstance(n, ast.AugAssign):
+                mutated.add(_root_name(n.target))
+            elif isinstance(n, (ast.Global, ast.Nonlocal)):
+                mutated.update(n.names)
+        blocks = _blocks_of(fn)
+        # definition sites: name -> [(block, index, stmt)]
+        sites: Dict[str, list] = {}
+        for blk in blocks:
+            for i, st in enumerate(blk):
+                if isinstance(st, ast.Assign) and len(st.targets) == 1:
+                    t = st.targets[0]
+                    if isinstance(t, ast.Name):
+                        sites.setdefault(t.id, []).append((blk, i, st))
+                    elif isinstance(t, ast.Tuple) and t.elts and all(isinstance(x, ast.Name) for x in t.elts):
+                        for x in t.elts:
+                            sites.setdefault(x.id, []).append((blk, i, st))
+
+        def name_ok(x) -> bool:
+            """x is new, every binding of x is such a definition, none inside the rest of another, every read inside one"""
+            if x in known or x in params or len(binds.get(x, [])) != len(sites.get(x, [])) or not sites.get(x):
+                return False
+            # a name that only ever stands for an immutable literal, or for another NAME (a pure alias: same object),
+            # may be "mutated" through: there is nothing of its own to mutate
+            plain = all(isinstance(s_.targets[0], ast.Name) and (_immutable_literal(s_.value) or isinstance(s_.value, ast.Name)) for _, _, s_ in sites[x])
+            if x in mutated and not plain:
+                return False
+            rests = [[n for s in b[k + 1:] for n in ast.walk(s)] for b, k, _ in sites[x]]
+            ids = [set(map(id, r)) for r in rests]
+            for bn in binds[x]:
+                if any(id(bn) in s for s in ids):
+                    return False
+            reads = [n for n in ast.walk(fn) if isinstance(n, ast.Name) and n.id == x and isinstance(n.ctx, ast.Load)]
+            return bool(reads) and all(any(id(r) in s for s in ids) for r in reads)
+
+        for blk in blocks:
+            for i, st in enumerate(blk):
+                if not (isinstance(st, ast.Assign) and len(st.targets) == 1):
+                    continue
+                t = st.targets[0]
+                if isinstance(t, ast.Name):
+                    tnames = [t.id]
+                elif isinstance(t, ast.Tuple) and t.elts and all(isinstance(x, ast.Name) for x in t.elts):
+                    tnames = [x.id for x in t.elts]
+                else:
+                    continue
+                if len(set(tnames)) != len(tnames) or not all(name_ok(x) for x in tnames):
+                    continue
+                rest = blk[i + 1:]
+                stored_in_rest = {n.id for s in rest for n in ast.walk(s) if isinstance(n, ast.Name) and isinstance(n.ctx, (ast.Store, ast.Del))}
+
+                # what the rest of the block mutates (syntactically): receivers of method calls, roots of subscript /
+                # attribute stores, augmented targets, and names handed whole to a call that is not a pure builtin
+                mut_rest = set()          # paths: ('x',), ('self', '_a')
+                for s in rest:
+                    for n in ast.walk(s):
+                        if isinstance(n, ast.Call):
+                            if isinstance(n.func, ast.Attribute):
+                                mut_rest.add(_path_of(n.func.value))
+                            if not (isinstance(n.func, ast.Name) and n.func.id in PURE_BUILTINS):
+                                for a in list(n.args) + [k.value for k in n.keywords]:
+                                    if isinstance(a, (ast.Name, ast.Starred, ast.Attribute)):
+                                        mut_rest.add(_path_of(a))
+                        elif isinstance(n, ast.Attribute) and isinstance(n.ctx, (ast.Store, ast.Del)):
+                            mut_rest.add(_path_of(n))
+                        elif isinstance(n, ast.Subscript) and isinstance(n.ctx, (ast.Store, ast.Del)):
+                            mut_rest.add(_path_of(n.value))
+                        elif isinstance(n, ast.AugAssign):
+                            mut_rest.add(_path_of(n.target) if isinstance(n.target, ast.Attribute) else _path_of(getattr(n.target, "value", n.target)))
+                        elif isinstance(n, (ast.Global, ast.Nonlocal)):
+                            mut_rest.update((x,) for x in n.names)
+                mut_rest.discard(None)
+
+                def _touched(path, _m=mut_rest):
+                    return any(m[:len(path)] == path[:len(m)] for m in _m)
+
+                def ok_name(nm, deep, _t=tnames, _s=stored_in_rest):
+                    if isinstance(nm, tuple):        # an attribute path
+                        return nm[0] not in _t and nm[0] not in _s and not _touched(nm)
+                    return nm not in _t and nm not in _s and not (deep and _touched((nm,)))
+                v = st.value
+                if isinstance(t, ast.Name):
+                    if not _stable_value(v, ok_name):
+                        continue
+                    mapping = {t.id: v}
+                else:
+                    if isinstance(v, ast.Tuple) and len(v.elts) == len(tnames) and _stable_value(v, ok_name):
+                        mapping = dict(zip(tnames, v.elts))
+                    elif isinstance(v, ast.Name) and ok_name(v.id, True):
+                        mapping = {nm: ast.Subscript(value=ast.Name(id=v.id, ctx=ast.Load()), slice=ast.Constant(value=k), ctx=ast.Load()) for k, nm in enumerate(tnames)}
+                    else:
+                        continue
+                later = [n for s in rest for n in ast.walk(s) if isinstance(n, ast.Name) and n.id in mapping and isinstance(n.ctx, ast.Load)]
+                if not later:
+                    continue
+                # a read as the receiver of an attribute (t.append(..)) could rely on the identity of one object
+                if not (isinstance(t, ast.Name) and (isinstance(v, ast.Name) or _immutable_literal(v))) and \
+                        any(isinstance(n, ast.Attribute) and isinstance(n.value, ast.Name) and n.value.id in mapping for s in rest for n in ast.walk(s)):
+                    continue
+                # a read deferred past the block (lambda, nested def, generator) needs the names never to be rebound at all
+                vnames = {x.id for x in ast.walk(v) if isinstance(x, ast.Name)}
+                deferred = any(isinstance(x, (ast.Lambda, ast.FunctionDef, ast.AsyncFunctionDef, ast.GeneratorExp)) and
+                               any(isinstance(n, ast.Name) and n.id in mapping for n in ast.walk(x)) for s in rest for x in ast.walk(s))
+                if deferred and any(len(binds.get(nm, [])) + (1 if nm in params else 0) > 1 for nm in vnames):
+                    continue
+                sub = _Subst(mapping, {})
+                for k, s in enumerate(rest):
+                    blk[i + 1 + k] = sub.visit(s)
+                    ast.fix_missing_locations(blk[i + 1 + k])
+                blk.pop(i)
+                log.append(f"T2 {mod}:{st.lineno} new local(s) {tnames} bound to a stable expression substituted into the reads")
+                changed = changed_any = True
+                break
+            if changed:
+                break
+        if not changed:
+            break
+    return changed_any
+
+
+
+def _effect_free(v) -> bool:
+    if _pure_temp_value(v):
+        return True
+    # logging.getLogger(<pure>) only looks a logger up
+    return isinstance(v, ast.Call) and ast.unparse(v.func) in ("logging.getLogger", "getLogger") and all(_pure_temp_value(a) for a in v.args) and not v.keywords
+
+
+def dead_local_pass(fn: ast.FunctionDef, qual: str, known_locals: Dict[str, set], log: List[str], mod: str) -> bool:
+    """X: a NEW local that is never read (its only occurrences are the targets of `x = V` / `x op= V` with V free of
+    effects) - typically a counter or a logger whose only reader was a dropped assert / log call - is removed."""
+    known = known_locals.get(qual)
+    if known is None and known_locals:
+        known = set()
+    if known is None:
+        return False
+    params = {a.arg for a in fn.args.posonlyargs + fn.args.args + fn.args.kwonlyargs}
+    loads, stores, scoped = set(), {}, set()
+    for n in ast.walk(fn):
+        if isinstance(n, ast.Name):
+            if isinstance(n.ctx, ast.Load):
+                loads.add(n.id)
+            else:
+                stores[n.id] = stores.get(n.id, 0) + 1
+        elif isinstance(n, (ast.Global, ast.Nonlocal)):
+            scoped.update(n.names)
+    changed = False
+    for blk in _blocks_of(fn):
+        keep = []
+        for st in blk:
+            t = None
+            if isinstance(st, ast.Assign) and len(st.targets) == 1 and isinstance(st.targets[0], ast.Name):
+                t = st.targets[0].id
+            elif isinstance(st, ast.AugAssign) and isinstance(st.target, ast.Name):
+                t = st.target.id
+            if t is not None and t not in known and t not in params and t not in loads and t not in scoped and _effect_free(st.value):
+                stores[t] -= 1
+                log.append(f"X {mod}:{st.lineno} new local `{t}` is never read: assignment dropped")
+                changed = True
+                continue
+            keep.append(st)
+        if len(keep) != len(blk):
+            blk[:] = keep or [ast.copy_location(ast.Pass(), blk[0])]
+    return changed
 
 
 # ----------------------------------------------------------------------------- helper table
@@ -931,10 +1261,16 @@ class Normalizer:
         known_locals = load_locals()
 
         def each(fn, qual, cls_node):
+            fold_function(fn)          # what inlining a helper with constant arguments leaves behind
             alias_pass(fn, cls_node, self.log, mod)
             temp_pass(fn, qual, known_locals, self.log, mod)
-            for n in ast.iter_child_nodes(fn):
-                pass
+            for _ in range(4):
+                dead_local_pass(fn, qual, known_locals, self.log, mod)
+                if not stable_temp_pass(fn, qual, known_locals, self.log, mod):
+                    break
+                temp_pass(fn, qual, known_locals, self.log, mod)
+                if not fold_function(fn):
+                    break
             for n in _walk_own(fn):
                 if isinstance(n, ast.FunctionDef):
                     each(n, f"{qual}.{n.name}", None)
@@ -1173,7 +1509,613 @@ def _always_leaves_or_assigned(stmts) -> bool:
     return False
 
 
+# ----------------------------------------------------------------------------- F: constant folding
+class _Fold(ast.NodeTransformer):
+    """Folds what rule K / O substitutions leave behind: comparisons of two constants (`None is None`), `not <const>`,
+    and / or with constant operands, if-expressions with a constant test."""
+    stable_names: set = set()        # module-level names bound exactly once (sentinels): `X is X` folds
+
+    def __init__(self):
+        self.n = 0
+
+    def visit_Compare(self, n):
+        self.generic_visit(n)
+        if len(n.ops) == 1 and isinstance(n.left, ast.Name) and isinstance(n.comparators[0], ast.Name) and n.left.id == n.comparators[0].id \
+                and n.left.id in self.stable_names and isinstance(n.ops[0], (ast.Is, ast.IsNot)):
+            self.n += 1
+            return ast.copy_location(ast.Constant(value=isinstance(n.ops[0], ast.Is)), n)
+        if len(n.ops) == 1 and isinstance(n.left, ast.Constant) and isinstance(n.comparators[0], ast.Constant):
+            a, b, op = n.left.value, n.comparators[0].value, n.ops[0]
+            try:
+                if isinstance(op, ast.Is):
+                    v = a is b if (a is None or b is None or isinstance(a, bool) or isinstance(b, bool)) else None
+                elif isinstance(op, ast.IsNot):
+                    v = a is not b if (a is None or b is None or isinstance(a, bool) or isinstance(b, bool)) else None
+                elif isinstance(op, ast.Eq):
+                    v = a == b
+                elif isinstance(op, ast.NotEq):
+                    v = a != b
+                else:
+                    v = None
+            except Exception:
+                v = None
+            if v is not None:
+                self.n += 1
+                return ast.copy_location(ast.Constant(value=bool(v)), n)
+        return n
+
+    def visit_UnaryOp(self, n):
+        self.generic_visit(n)
+        if isinstance(n.op, ast.UAdd) and isinstance(n.operand, ast.Constant) and isinstance(n.operand.value, (int, float)):
+            self.n += 1
+            return n.operand
+        if isinstance(n.op, ast.Not) and isinstance(n.operand, ast.Constant):
+            self.n += 1
+            return ast.copy_location(ast.Constant(value=not n.operand.value), n)
+        return n
+
+    def visit_BoolOp(self, n):
+        self.generic_visit(n)
+        is_and = isinstance(n.op, ast.And)
+        out = []
+        for k, v in enumerate(n.values):
+            last = k == len(n.values) - 1
+            if isinstance(v, ast.Constant):
+                truthy = bool(v.value)
+                if truthy == is_and and not last:
+                    self.n += 1
+                    continue            # `True and x` = x ; `False or x` = x
+                if truthy != is_and:
+                    out.append(v)       # `.. and False` / `.. or True`: evaluation stops here with this value
+                    if not last:
+                        self.n += 1
+                    break
+            out.append(v)
+        if len(out) == 1:
+            return out[0]
+        n.values = out
+        return n
+
+    def visit_IfExp(self, n):
+        self.generic_visit(n)
+        if isinstance(n.test, ast.Constant):
+            self.n += 1
+            return n.body if n.test.value else n.orelse
+        return n
+
+
+def _fold_block(stmts: list, counter: List[int]) -> list:
+    out = []
+    for st in stmts:
+        for f in ("body", "orelse", "finalbody"):
+            b = getattr(st, f, None)
+            if isinstance(b, list) and b and isinstance(b[0], ast.stmt) and not isinstance(st, (ast.FunctionDef, ast.AsyncFunctionDef, ast.ClassDef)):
+                nb = _fold_block(b, counter)
+                setattr(st, f, nb if (nb or f != "body") else [ast.copy_location(ast.Pass(), st)])
+        if isinstance(st, ast.Try):
+            for h in st.handlers:
+                h.body = _fold_block(h.body, counter) or [ast.copy_location(ast.Pass(), h)]
+        if isinstance(st, ast.If) and isinstance(st.test, ast.Constant):
+            counter[0] += 1
+            taken = st.body if st.test.value else st.orelse
+            out.extend(taken)
+            if taken and isinstance(taken[-1], (ast.Return, ast.Raise, ast.Continue, ast.Break)):
+                break          # the branch that is always taken leaves the block: what follows is unreachable
+            continue
+        if isinstance(st, ast.While) and isinstance(st.test, ast.Constant) and not st.test.value:
+            counter[0] += 1
+            out.extend(st.orelse)
+            continue
+        out.append(st)
+    return [x for x in out if not isinstance(x, ast.Pass)] if len(out) > 1 else out
+
+
+def fold_function(fn) -> int:
+    """constant-fold the expressions and the statement structure of one function; returns the number of folds"""
+    f = _Fold()
+    for k, st in enumerate(fn.body):
+        fn.body[k] = f.visit(st)
+    c = [0]
+    fn.body = _fold_block(fn.body, c) or [ast.copy_location(ast.Pass(), fn)]
+    if f.n or c[0]:
+        ast.fix_missing_locations(fn)
+    return f.n + c[0]
+
+
+# ----------------------------------------------------------------------------- O: new optional parameters
+def _vocab_functions(trees):
+    """(module, FunctionDef, qualname as in known_functions.json, class name) for module-level functions and methods"""
+    for mod, tree in trees.items():
+        for st in tree.body:
+            if isinstance(st, ast.FunctionDef):
+                yield mod, st, st.name, None
+            elif isinstance(st, ast.ClassDef):
+                for c in st.body:
+                    if isinstance(c, ast.FunctionDef):
+                        key = c.name + ".setter" if any(ast.unparse(d).endswith(".setter") for d in c.decorator_list) else c.name
+                        yield mod, c, f"{st.name}.{key}", st.name
+
+
+def _specialise_param(fn: ast.FunctionDef, name: str, default: ast.expr) -> bool:
+    """Rewrite fn's body for `name` == default.  The parameter may be rebound by the usual defaulting idioms at the top
+    level of the body (`if p is None: p = E`, `p = p or E`, `p = E if p is None else p`): from there on it is a local."""
+    if any(isinstance(n, (ast.FunctionDef, ast.AsyncFunctionDef, ast.Lambda)) and n is not fn and
+           any(a.arg == name for a in n.args.posonlyargs + n.args.args + n.args.kwonlyargs) for n in ast.walk(fn)):
+        return False
+    if any(isinstance(n, (ast.Global, ast.Nonlocal)) and name in n.names for n in ast.walk(fn)):
+        return False
+    body = copy.deepcopy(fn.body)
+    sub = _Subst({name: default}, {})
+    out = []
+    done = False
+    for st in body:
+        if done:
+            out.append(st)
+            continue
+        stores = [n for n in ast.walk(st) if isinstance(n, ast.Name) and n.id == name and isinstance(n.ctx, (ast.Store, ast.Del))]
+        if not stores:
+            out.append(sub.visit(st))
+            continue
+        if isinstance(st, ast.Assign) and len(st.targets) == 1 and isinstance(st.targets[0], ast.Name) and st.targets[0].id == name:
+            st.value = _Fold().visit(sub.visit(st.value))
+            out.append(st)
+            done = True
+            continue
+        if isinstance(st, ast.If) and not st.orelse and len(st.body) == 1 and isinstance(st.body[0], ast.Assign) and len(st.body[0].targets) == 1 \
+                and isinstance(st.body[0].targets[0], ast.Name) and st.body[0].targets[0].id == name:
+            test = _Fold().visit(sub.visit(copy.deepcopy(st.test)))
+            if isinstance(test, ast.Constant):
+                if test.value:
+                    asg = st.body[0]
+                    asg.value = _Fold().visit(sub.visit(asg.value))
+                    out.append(asg)
+                    done = True
+                else:
+                    # never rebound on this path: the rest still sees the default
+                    pass
+                continue
+        return False
+    if not done and any(isinstance(n, ast.Name) and n.id == name for s_ in out for n in ast.walk(s_)):
+        return False
+    fn.body = out or [ast.copy_location(ast.Pass(), fn)]
+    ast.fix_missing_locations(fn)
+    return True
+
+
+def optional_params_pass(trees: Dict[str, ast.Module], vocab: dict, log: List[str], is_const=None) -> None:
+    """O: a parameter that an existing function does not have on the pinned tree and that carries an immutable default
+    is an optional extension.  The properties speak about the calls that existed, which all run with the default: the
+    function is specialised to it (reads replaced by the default, the tests folded, the parameter removed), and keyword
+    arguments that hand the same default on to another specialised function are dropped."""
+    sigs = vocab.get("params")
+    if not sigs:
+        return
+    removed: Dict[str, Dict[str, ast.expr]] = {}         # function NAME -> {param: default}
+    for mod, fn, qual, cls in _vocab_functions(trees):
+        if qual not in sigs:
+            continue
+        known = {x.lstrip("*") for x in sigs[qual]}
+        a = fn.args
+        pos = a.posonlyargs + a.args
+        dmap = {}
+        for p_, d_ in zip(pos[len(pos) - len(a.defaults):], a.defaults):
+            dmap[p_.arg] = d_
+        for p_, d_ in zip(a.kwonlyargs, a.kw_defaults):
+            if d_ is not None:
+                dmap[p_.arg] = d_
+        for p_ in list(pos) + list(a.kwonlyargs):
+            if p_.arg in known or p_.arg not in dmap or not (is_const or _immutable_literal)(dmap[p_.arg]):
+                continue
+            if p_ in pos and any(q.arg in known for q in pos[pos.index(p_) + 1:]):
+                continue          # not at the tail: removing it would shift existing positional parameters
+            if not _specialise_param(fn, p_.arg, dmap[p_.arg]):
+                continue
+            if p_ in a.kwonlyargs:
+                k = a.kwonlyargs.index(p_)
+                a.kwonlyargs.pop(k)
+                a.kw_defaults.pop(k)
+            else:
+                lst = a.args if p_ in a.args else a.posonlyargs
+                k_from_end = len(pos) - pos.index(p_)
+                a.defaults.pop(len(a.defaults) - k_from_end)
+                lst.remove(p_)
+                pos = a.posonlyargs + a.args
+            removed.setdefault(fn.name, {})[p_.arg] = dmap[p_.arg]
+            log.append(f"O {mod}:{fn.lineno} `{qual}` specialised to the default of its new optional parameter `{p_.arg}={ast.unparse(dmap[p_.arg])}`")
+        fold_function(fn)
+    if not removed:
+        return
+    # keyword arguments that pass the very default on
+    for mod, tree in trees.items():
+        for n in ast.walk(tree):
+            if isinstance(n, ast.Call) and n.keywords:
+                nm = n.func.attr if isinstance(n.func, ast.Attribute) else (n.func.id if isinstance(n.func, ast.Name) else None)
+                if nm in removed:
+                    keep = []
+                    for k in n.keywords:
+                        d_ = removed[nm].get(k.arg) if k.arg else None
+                        if d_ is not None and isinstance(k.value, ast.Constant) and isinstance(d_, ast.Constant) and k.value.value == d_.value and type(k.value.value) is type(d_.value):
+                            continue
+                        keep.append(k)
+                    n.keywords = keep
+
+
+def const_args_pass(trees: Dict[str, ast.Module], vocab: dict, log: List[str], is_const) -> None:
+    """O2: a NEW function (a helper hoisted out of, or shared between, existing functions) one of whose parameters
+    receives the same constant at every call made from the existing functions is specialised to that constant, and the
+    argument is dropped at those calls: `C = _zeta(alpha, 1e-06)` with `def _zeta(s, tol)` reads as the pinned
+    `C = zeta(alpha)` with the tolerance written in the body."""
+    sigs = vocab.get("params")
+    if not sigs:
+        return
+    new: Dict[str, tuple] = {}
+    dup = set()
+    vocab_fns = []
+    for mod, fn, qual, cls in _vocab_functions(trees):
+        if qual in sigs:
+            vocab_fns.append(fn)
+        else:
+            if fn.name in new:
+                dup.add(fn.name)
+            new[fn.name] = (fn, cls is not None, mod)
+    for d_ in dup:
+        new.pop(d_, None)
+    if not new:
+        return
+    calls: Dict[str, list] = {}
+    for vf in vocab_fns:
+        for n in ast.walk(vf):
+            if isinstance(n, ast.Call):
+                nm = n.func.attr if isinstance(n.func, ast.Attribute) else (n.func.id if isinstance(n.func, ast.Name) else None)
+                if nm in new and (isinstance(n.func, ast.Attribute) == new[nm][1] or isinstance(n.func, ast.Name) and not new[nm][1]):
+                    calls.setdefault(nm, []).append(n)
+    for name, (g, is_m, mod) in new.items():
+        sites = calls.get(name)
+        a = g.args
+        if not sites or a.vararg or a.kwarg:
+            continue
+        if any(isinstance(x, ast.Starred) for c in sites for x in c.args) or any(k.arg is None for c in sites for k in c.keywords):
+            continue
+        pos = a.posonlyargs + a.args
+        dmap = {}
+        for p_, d_ in zip(pos[len(pos) - len(a.defaults):], a.defaults):
+            dmap[p_.arg] = d_
+        for p_, d_ in zip(a.kwonlyargs, a.kw_defaults):
+            if d_ is not None:
+                dmap[p_.arg] = d_
+        if is_m and pos and pos[0].arg in ("self", "cls") and not any(ast.unparse(d) == "staticmethod" for d in g.decorator_list):
+            pos = pos[1:]
+        changed = False
+        for i, p_ in list(enumerate(pos)) + [(None, q) for q in a.kwonlyargs]:
+            vals = []
+            for c in sites:
+                kw = [k for k in c.keywords if k.arg == p_.arg]
+                if i is not None and i < len(c.args):
+                    vals.append(c.args[i])
+                elif kw:
+                    vals.append(kw[0].value)
+                elif p_.arg in dmap:
+                    vals.append(dmap[p_.arg])
+                else:
+                    vals = None
+                    break
+            if not vals or not all(is_const(v) for v in vals) or len({ast.unparse(_Fold().visit(copy.deepcopy(v))) for v in vals}) != 1:
+                continue
+            if not _specialise_param(g, p_.arg, _Fold().visit(copy.deepcopy(vals[0]))):
+                continue
+            for c in sites:
+                if i is not None and i == len(c.args) - 1:
+                    c.args.pop()
+                else:
+                    c.keywords = [k for k in c.keywords if k.arg != p_.arg]
+            changed = True
+            log.append(f"O2 {mod}:{g.lineno} new function `{name}` specialised to `{p_.arg}={ast.unparse(vals[0])}`, the constant every existing caller passes")
+        if changed:
+            fold_function(g)
+
+
+def instance_constants(trees: Dict[str, ast.Module], vocab: dict) -> Dict[str, Dict[str, ast.expr]]:
+    """A NEW instance attribute that is assigned exactly once in the whole program - in a constructor, to an immutable
+    literal (typically the stored default of a new optional parameter, or a hook that defaults to None) - reads as that
+    literal in the class's methods."""
+    known = vocab.get("class_attrs_assigned", {})
+    stores: Dict[str, int] = {}
+    for tree in trees.values():
+        for n in ast.walk(tree):
+            if isinstance(n, ast.Attribute) and isinstance(n.ctx, (ast.Store, ast.Del)):
+                stores[n.attr] = stores.get(n.attr, 0) + 1
+    out: Dict[str, Dict[str, ast.expr]] = {}
+    for tree in trees.values():
+        for st in tree.body:
+            if not isinstance(st, ast.ClassDef) or st.name not in known:
+                continue
+            for c in st.body:
+                if isinstance(c, ast.FunctionDef) and c.name == "__init__":
+                    for n in ast.walk(c):
+                        if isinstance(n, ast.Assign) and len(n.targets) == 1 and isinstance(n.targets[0], ast.Attribute) and isinstance(n.targets[0].value, ast.Name) \
+                                and n.targets[0].value.id == "self" and _immutable_literal(n.value):
+                            x = n.targets[0].attr
+                            if x not in known.get(st.name, []) and stores.get(x) == 1 and not any(x in known.get(k, []) for k in known):
+                                out.setdefault(st.name, {})[x] = n.value
+    return out
+
+
+_BUILTIN_TYPES = {"int", "float", "str", "bool", "list", "tuple", "dict", "set", "frozenset", "bytes", "complex"}
+
+
+def _immutable_literal(e) -> bool:
+    if isinstance(e, ast.Constant):
+        return True
+    if isinstance(e, ast.UnaryOp) and isinstance(e.op, (ast.USub, ast.UAdd)) and isinstance(e.operand, ast.Constant):
+        return True
+    if isinstance(e, ast.Tuple):
+        return all(_immutable_literal(x) or (isinstance(x, ast.Name) and x.id in _BUILTIN_TYPES) for x in e.elts)
+    if isinstance(e, ast.BinOp) and isinstance(e.op, (ast.Add, ast.Sub, ast.Mult, ast.Div, ast.Pow)):
+        return _immutable_literal(e.left) and _immutable_literal(e.right)
+    return False
+
+
+def constants_and_noise_pass(trees: Dict[str, ast.Module], log: List[str]) -> None:
+    """K: a module-level or class-level name that does not exist on the pinned tree and is bound exactly once to an
+       immutable literal is a named constant: its value is substituted where it is read (`_TOL`, `self._TOL`,
+       `Cls._TOL`).
+    D: `assert` statements and calls of logger methods carry no behaviour the properties speak about (the pinned tree
+       has no assert; its logging calls are already ignored by the rules): they are dropped."""
+    try:
+        d = json.load(open(os.path.join(VERIF, "known_functions.json")))
+    except Exception:
+        return
+    if "module_names" not in d:
+        return
+    known_mod = d.get("module_names", {})
+    known_cls = d.get("class_level_names", {})
+    # ---- collect new constants
+    mod_consts: Dict[str, Dict[str, ast.expr]] = {}
+    cls_consts: Dict[str, Dict[str, ast.expr]] = {}
+    imported: Dict[str, Dict[str, ast.expr]] = {}
+    repo_classes = {st.name for tr in trees.values() for st in tr.body if isinstance(st, ast.ClassDef)}
+
+    stored_attrs: set = set()
+
+    def attr_stored(name: str) -> bool:
+        return name in stored_attrs
+
+    def constant_value(e) -> bool:
+        """an immutable literal, or a member of one of the repo's constant-holder classes (NetworkNames.TOPOLOGY)"""
+        if _immutable_literal(e):
+            return True
+        return isinstance(e, ast.Attribute) and isinstance(e.value, ast.Name) and e.value.id in repo_classes and not attr_stored(e.attr)
+
+    def collect():
+        mod_consts.clear()
+        cls_consts.clear()
+        imported.clear()
+        stored_attrs.clear()
+        stored_attrs.update(x.attr for tr in trees.values() for x in ast.walk(tr) if isinstance(x, ast.Attribute) and isinstance(x.ctx, (ast.Store, ast.Del)))
+        for mod, tree in trees.items():
+            counts: Dict[str, int] = {}
+            for n in ast.walk(tree):
+                if isinstance(n, ast.Name) and isinstance(n.ctx, (ast.Store, ast.Del)):
+                    counts[n.id] = counts.get(n.id, 0) + 1
+                if isinstance(n, ast.Global):
+                    for x in n.names:
+                        counts[x] = counts.get(x, 0) + 5
+            for st in tree.body:
+                if isinstance(st, ast.Assign) and len(st.targets) == 1 and constant_value(st.value):
+                    t = st.targets[0]
+                    if isinstance(t, ast.Name) and counts.get(t.id) == 1 and t.id not in known_mod.get(mod, []):
+                        mod_consts.setdefault(mod, {})[t.id] = st.value
+                if isinstance(st, ast.ClassDef):
+                    for c in st.body:
+                        if isinstance(c, ast.Assign) and len(c.targets) == 1 and constant_value(c.value):
+                            t = c.targets[0]
+                            if isinstance(t, ast.Name) and t.id not in known_cls.get(st.name, []) and st.name in known_cls:
+                                # never assigned through an instance / the class elsewhere
+                                if not attr_stored(t.id):
+                                    cls_consts.setdefault(st.name, {})[t.id] = c.value
+        # imports of module constants:  from gcmpy.x import _TOL
+        for mod, tree in trees.items():
+            for st in ast.walk(tree):
+                if isinstance(st, ast.ImportFrom) and st.module in mod_consts and not st.level:
+                    for a in st.names:
+                        if a.name in mod_consts[st.module]:
+                            imported.setdefault(mod, {})[a.asname or a.name] = mod_consts[st.module][a.name]
+    collect()
+
+    class K(ast.NodeTransformer):
+        def __init__(self, mod, cls):
+            self.mod, self.cls = mod, cls
+            self.local_stack = []
+
+        def visit_FunctionDef(self, node):
+            loc = {a.arg for a in node.args.posonlyargs + node.args.args + node.args.kwonlyargs}
+            loc |= {n.id for n in ast.walk(node) if isinstance(n, ast.Name) and isinstance(n.ctx, (ast.Store, ast.Del))}
+            self.local_stack.append(loc)
+            self.generic_visit(node)
+            self.local_stack.pop()
+            return node
+
+        def visit_ClassDef(self, node):
+            old = self.cls
+            self.cls = node.name
+            self.generic_visit(node)
+            self.cls = old
+            return node
+
+        def visit_Name(self, node):
+            if isinstance(node.ctx, ast.Load) and self.local_stack and not any(node.id in l for l in self.local_stack):
+                v = mod_consts.get(self.mod, {}).get(node.id) or imported.get(self.mod, {}).get(node.id)
+                if v is not None:
+                    log.append(f"K {self.mod}:{node.lineno} constant `{node.id}` substituted")
+                    return ast.copy_location(copy.deepcopy(v), node)
+            return node
+
+        def visit_Call(self, node):
+            self.generic_visit(node)
+            # getattr(self, "X", default) reads self.X
+            if isinstance(node.func, ast.Name) and node.func.id == "getattr" and 2 <= len(node.args) <= 3 and not node.keywords \
+                    and isinstance(node.args[1], ast.Constant) and isinstance(node.args[1].value, str) and isinstance(node.args[0], ast.Name):
+                probe = ast.copy_location(ast.Attribute(value=node.args[0], attr=node.args[1].value, ctx=ast.Load()), node)
+                r = self.visit_Attribute(probe)
+                if r is not probe:
+                    return r
+            return node
+
+        def visit_Attribute(self, node):
+            self.generic_visit(node)
+            if isinstance(node.ctx, ast.Load) and isinstance(node.value, ast.Name) and self.local_stack:
+                owner = None
+                if node.value.id in ("self", "cls") and self.cls:
+                    owner = self.cls
+                elif node.value.id in cls_consts:
+                    owner = node.value.id
+                if owner is not None:
+                    # through the MRO is not needed for the cases at hand: the class that defines it, or a subclass by name
+                    for cname, consts in cls_consts.items():
+                        if node.attr in consts and (cname == owner or owner in _subclasses_of(trees, cname)):
+                            log.append(f"K {self.mod}:{node.lineno} class constant `{cname}.{node.attr}` substituted")
+                            return ast.copy_location(copy.deepcopy(consts[node.attr]), node)
+            return node
+
+    # ---- D: drop asserts and logger calls
+    def is_log_call(st):
+        if not (isinstance(st, ast.Expr) and isinstance(st.value, ast.Call) and isinstance(st.value.func, ast.Attribute)):
+            return False
+        if st.value.func.attr not in ("debug", "info", "warning", "error", "exception", "critical", "log"):
+            return False
+        recv = ast.unparse(st.value.func.value)
+        if recv == "self._logger":
+            return False        # the pinned tree's own idiom; the rules skip these calls themselves
+        return "log" in recv.lower()
+
+    def strip(blk):
+        changed = False
+        out = []
+        for st in blk:
+            if isinstance(st, ast.Assert):
+                log.append(f"D {getattr(st, 'lineno', 0)} assert dropped")
+                changed = True
+                continue
+            if is_log_call(st):
+                log.append(f"D {st.lineno} log call dropped")
+                changed = True
+                continue
+            if isinstance(st, ast.If) and len(st.body) >= 1 and all(is_log_call(x) for x in st.body) and not st.orelse \
+                    and not any(isinstance(x, ast.Call) for x in ast.walk(st.test) if not (isinstance(x, ast.Call) and isinstance(x.func, ast.Attribute) and x.func.attr == "isEnabledFor")):
+                log.append(f"D {st.lineno} guarded log call dropped")
+                changed = True
+                continue
+            for f in ("body", "orelse", "finalbody"):
+                b = getattr(st, f, None)
+                if isinstance(b, list) and b and isinstance(b[0], ast.stmt):
+                    nb, ch = strip(b)
+                    if ch:
+                        setattr(st, f, nb or [ast.copy_location(ast.Pass(), st)])
+                        changed = True
+            if isinstance(st, ast.Try):
+                for h in st.handlers:
+                    nb, ch = strip(h.body)
+                    if ch:
+                        h.body = nb or [ast.copy_location(ast.Pass(), h)]
+                        changed = True
+                # R: `try: BODY except X: raise` (bare re-raise in every handler, no else / finally) is BODY
+                if not st.orelse and not st.finalbody and st.handlers and all(len(h.body) == 1 and isinstance(h.body[0], ast.Raise) and h.body[0].exc is None for h in st.handlers):
+                    log.append(f"R {st.lineno} try block whose handlers only re-raise unwrapped")
+                    out.extend(st.body)
+                    changed = True
+                    continue
+            out.append(st)
+        return out, changed
+
+    for mod, tree in trees.items():
+        if mod_consts.get(mod) or imported.get(mod) or cls_consts:
+            K(mod, None).visit(tree)
+    # O: new optional parameters specialised to their defaults; then the instance attributes that only ever hold such a default
+    # sentinels: NEW module-level names bound exactly once (to anything): as a default they identify "not given"
+    sentinels = set()
+    for mod, tree in trees.items():
+        cnt: Dict[str, int] = {}
+        for n in ast.walk(tree):
+            if isinstance(n, ast.Name) and isinstance(n.ctx, (ast.Store, ast.Del)):
+                cnt[n.id] = cnt.get(n.id, 0) + 1
+            elif isinstance(n, ast.Global):
+                for x in n.names:
+                    cnt[x] = cnt.get(x, 0) + 5
+        for st in tree.body:
+            if isinstance(st, ast.Assign) and len(st.targets) == 1 and isinstance(st.targets[0], ast.Name) and cnt.get(st.targets[0].id) == 1 \
+                    and st.targets[0].id not in known_mod.get(mod, []) and isinstance(st.value, ast.Call) and ast.unparse(st.value) == "object()":
+                sentinels.add(st.targets[0].id)
+    _Fold.stable_names = sentinels
+    optional_params_pass(trees, d, log, lambda e: constant_value(e) or (isinstance(e, ast.Name) and e.id in sentinels))
+    for tree in trees.values():
+        for n in ast.walk(tree):
+            if isinstance(n, (ast.FunctionDef, ast.AsyncFunctionDef)):
+                fold_function(n)
+    # second round: what became a constant once the dead stores of the specialised parameters are gone
+    collect()
+    for cname, cs in instance_constants(trees, d).items():
+        cls_consts.setdefault(cname, {}).update(cs)
+    if mod_consts or cls_consts or imported:
+        for mod, tree in trees.items():
+            K(mod, None).visit(tree)
+    const_args_pass(trees, d, log, constant_value)
+    for mod, tree in trees.items():
+        for n in ast.walk(tree):
+            if isinstance(n, (ast.FunctionDef, ast.AsyncFunctionDef)):
+                k = fold_function(n)
+                if k:
+                    log.append(f"F {mod}:{n.lineno} {k} constant test(s) folded in `{n.name}`")
+        for n in ast.walk(tree):
+            if isinstance(n, (ast.FunctionDef, ast.AsyncFunctionDef)):
+                nb, ch = strip(n.body)
+                if ch:
+                    n.body = nb or [ast.copy_location(ast.Pass(), n)]
+        ast.fix_missing_locations(tree)
+
+
+def _subclasses_of(trees, cname):
+    out = set()
+    changed = True
+    bases: Dict[str, List[str]] = {}
+    for tr in trees.values():
+        for st in tr.body:
+            if isinstance(st, ast.ClassDef):
+                bases[st.name] = [ast.unparse(b).split(".")[-1] for b in st.bases]
+    while changed:
+        changed = False
+        for c, bs in bases.items():
+            if c not in out and (cname in bs or any(b in out for b in bs)):
+                out.add(c)
+                changed = True
+    return out
+
+
+class _DropAnnotations(ast.NodeTransformer):
+    """`x: T = v` is `x = v` and a bare `x: T` is nothing: annotations on assignments carry no behaviour.  Applied to
+    every tree (the pinned one too - it is not counted as a rewrite), so that no rule has to know both spellings."""
+    def visit_AnnAssign(self, n):
+        self.generic_visit(n)
+        if n.value is None:
+            return ast.copy_location(ast.Pass(), n)
+        return ast.copy_location(ast.Assign(targets=[n.target], value=n.value, type_comment=None), n)
+
+
+def _drop_redundant_pass(tree):
+    for n in ast.walk(tree):
+        for f in ("body", "orelse", "finalbody"):
+            b = getattr(n, f, None)
+            if isinstance(b, list) and len(b) > 1 and any(isinstance(x, ast.Pass) for x in b) and isinstance(b[0], ast.stmt):
+                nb = [x for x in b if not isinstance(x, ast.Pass)]
+                setattr(n, f, nb or [b[0]])
+
+
 def normalize_program(trees: Dict[str, ast.Module]) -> List[str]:
+    log: List[str] = []
+    for tree in trees.values():
+        _DropAnnotations().visit(tree)
+        ast.fix_missing_locations(tree)
+    constants_and_noise_pass(trees, log)
     n = Normalizer(trees, load_vocabulary())
+    n.log = log + n.log
     n.run()
     return n.log
